@@ -170,3 +170,121 @@ func checkPersistCallbackContract(r *Run, p *packages.Package) {
 		r.Undecide("C19-R8: no persist callback (a closure that calls writeDumpCheckpoint) found in package retriever")
 	}
 }
+
+// checkTerminalAfterFilter (C17-R5): the sequential traversal reports a segment to the path visitor as a terminal when
+// nothing was pushed for it. What was *fetched* is not the same once a descent filter turned candidates away: a segment
+// whose candidates were all rejected is a terminal too. The guard of the path visitor call must therefore compare the
+// work stack's length with the length it had before the descent; a test on the fetched candidates loses those paths.
+func checkTerminalAfterFilter(r *Run, p *packages.Package) {
+	const rule = "C17-R5-terminal-after-filter"
+	if p == nil {
+		r.Undecide("C17-R5: package ops not loaded")
+		return
+	}
+	info := p.TypesInfo
+	fd := FuncDecls(p)["Traversal"]
+	if fd == nil || fd.Body == nil {
+		r.Undecide("C17-R5: ops.Traversal not found")
+		return
+	}
+	// the visitor parameter (a function-typed parameter called in the body) and the work stack (a local slice that is
+	// both appended to and shortened)
+	var visitor types.Object
+	for _, pl := range fd.Type.Params.List {
+		for _, nm := range pl.Names {
+			if obj := info.Defs[nm]; obj != nil {
+				if _, isFunc := obj.Type().Underlying().(*types.Signature); isFunc {
+					visitor = obj
+				}
+			}
+		}
+	}
+	appended, shortened := map[types.Object]bool{}, map[types.Object]bool{}
+	ast.Inspect(fd.Body, func(x ast.Node) bool {
+		as, ok := x.(*ast.AssignStmt)
+		if !ok || len(as.Lhs) != 1 || len(as.Rhs) != 1 {
+			return true
+		}
+		id, ok := as.Lhs[0].(*ast.Ident)
+		if !ok {
+			return true
+		}
+		switch rhs := ast.Unparen(as.Rhs[0]).(type) {
+		case *ast.CallExpr:
+			if f, ok := rhs.Fun.(*ast.Ident); ok && f.Name == "append" {
+				appended[info.ObjectOf(id)] = true
+			}
+		case *ast.SliceExpr:
+			shortened[info.ObjectOf(id)] = true
+		}
+		return true
+	})
+	var stack types.Object
+	for o := range appended {
+		if shortened[o] {
+			stack = o
+		}
+	}
+	if visitor == nil || stack == nil {
+		r.Undecide("C17-R5: the path visitor parameter or the work stack of ops.Traversal was not identified")
+		return
+	}
+	// locals holding len(stack)
+	lengths := map[types.Object]bool{}
+	isLenOfStack := func(e ast.Expr) bool {
+		call, ok := ast.Unparen(e).(*ast.CallExpr)
+		if !ok || len(call.Args) != 1 {
+			return false
+		}
+		f, ok := call.Fun.(*ast.Ident)
+		if !ok || f.Name != "len" {
+			return false
+		}
+		id, ok := ast.Unparen(call.Args[0]).(*ast.Ident)
+		return ok && info.Uses[id] == stack
+	}
+	ast.Inspect(fd.Body, func(x ast.Node) bool {
+		if as, ok := x.(*ast.AssignStmt); ok && len(as.Lhs) == 1 && len(as.Rhs) == 1 && isLenOfStack(as.Rhs[0]) {
+			if id, ok := as.Lhs[0].(*ast.Ident); ok {
+				lengths[info.ObjectOf(id)] = true
+			}
+		}
+		return true
+	})
+	n := 0
+	ast.Inspect(fd.Body, func(x ast.Node) bool {
+		call, ok := x.(*ast.CallExpr)
+		if !ok {
+			return true
+		}
+		id, ok := call.Fun.(*ast.Ident)
+		if !ok || info.Uses[id] != visitor {
+			return true
+		}
+		n++
+		comparesStack := false
+		for _, l := range pathConditions(fd.Body, call) {
+			ast.Inspect(l.Expr, func(y ast.Node) bool {
+				be, ok := y.(*ast.BinaryExpr)
+				if !ok || be.Op != token.EQL {
+					return true
+				}
+				for _, pr := range [][2]ast.Expr{{be.X, be.Y}, {be.Y, be.X}} {
+					if v, ok := ast.Unparen(pr[0]).(*ast.Ident); ok && lengths[info.Uses[v]] && isLenOfStack(pr[1]) {
+						comparesStack = true
+					}
+				}
+				return true
+			})
+		}
+		if comparesStack {
+			r.Pass(rule, "ops.Traversal:path-visitor", call.Pos(), "a segment is reported as a terminal when the work stack did not grow for it")
+		} else {
+			r.Fail(rule, "ops.Traversal:path-visitor", call.Pos(), "the path visitor is called without comparing the work stack's length with the length before the descent: a segment whose fetched candidates were all turned away by the descent filter (a cycle back into its own path) is not reported, and the path that ends there is lost")
+		}
+		return true
+	})
+	if n == 0 {
+		r.Undecide("C17-R5: ops.Traversal never calls its path visitor")
+	}
+}
